@@ -618,6 +618,60 @@ def generate():
         except (Unsupported, OSError) as e:
             g.unavailable(lean, "(i : Nat) : BB", "0", e)
 
+    # ---- get_attacks_slow (rook, bishop): the fixed four-ray skeleton; what is read from the source is which ray guards, which ray
+    #      is scanned, in which direction the scan runs (bitscan_forward / bitscan_reverse) and which ray is cut, in source order
+    out.append("/-- one `if !(ray & blockers).is_empty() { let i = (ray' & blockers).bitscan_X(); attacks &= !rays[i][dir]; }` block -/\n"
+               "def cutTr (a : BB) (sq gd sd cd : Nat) (fwd : Bool) (bl : BB) : BB :=\n"
+               "  if (rayInit sq gd &&& bl) != 0 then a &&& ~~~(rayInit (if fwd then bsf (rayInit sq sd &&& bl) else bsr (rayInit sq sd &&& bl)) cd) else a\n"
+               "/-- the index handed to `rays[..]` inside that block is a square (else the Rust code would panic) -/\n"
+               "def cutTrOK (sq gd sd : Nat) (fwd : Bool) (bl : BB) : Bool :=\n"
+               "  if (rayInit sq gd &&& bl) != 0 then decide ((if fwd then bsf (rayInit sq sd &&& bl) else bsr (rayInit sq sd &&& bl)) < 64) else true\n")
+    for fname, lean in (("rook", "rookSlow"), ("bishop", "bishopSlow")):
+        try:
+            if not rays_avail:
+                raise Unsupported("rays not translated")
+            for what, pat in (("Square::u8", "pubconstfnu8(self)->u8{self.rank*8+self.file}"),):
+                if pat not in norm(non_test(sq)):
+                    raise Unsupported(f"square.rs: {what} does not have the known shape")
+            for what, pat in (("is_empty", "pubconstfnis_empty(self)->bool{self.0==0}"),
+                              ("bitscan_forward", "pubconstfnbitscan_forward(self)->u32{unsafe{self.bitscan_forward_helper()}}"),
+                              ("bitscan_forward_helper", "constunsafefnbitscan_forward_helper(self)->u32{self.0.trailing_zeros()}"),
+                              ("bitscan_reverse", "pubconstfnbitscan_reverse(self)->u32{unsafe{self.bitscan_reverse_helper()}}"),
+                              ("bitscan_reverse_helper", "constunsafefnbitscan_reverse_helper(self)->u32{63-self.0.leading_zeros()}")):
+                if pat not in norm(bbs):
+                    raise Unsupported(f"bitboard.rs: {what} does not have the known shape")
+            src = non_test(read(f"src/board/piece/{fname}.rs"))
+            body = re.sub(r"\s+", " ", fn_body(src, r"fn get_attacks_slow\(square: Square, blockers: Bitboard\) -> Bitboard \{")).strip()
+            ray = r"let (\w+) = rays\[square\.u8\(\) as usize\]\[Direction::(\w+) as usize\]; "
+            blk = (r"if !\((\w+) & blockers\)\.is_empty\(\) \{ let blocked_idx = \((\w+) & blockers\)\.(bitscan_forward|bitscan_reverse)\(\); "
+                   r"attacks &= !\(rays\[blocked_idx as usize\]\[Direction::(\w+) as usize\]\); \} ")
+            m = re.fullmatch(r"let rays = RAYS\.get_or_init\(crate::board::square::rays::Rays::new\)\.rays; " + ray * 4 +
+                             r"let mut attacks = (\w+) \| (\w+) \| (\w+) \| (\w+); " + blk * 4 + r"attacks", body)
+            if not m:
+                raise Unsupported(f"{fname}.rs: get_attacks_slow does not have the four-ray skeleton")
+            gs = m.groups()
+            var = {}
+            for k in range(4):
+                if gs[2 * k + 1] not in consts["Direction"]:
+                    raise Unsupported(f"{fname}.rs: direction {gs[2 * k + 1]}")
+                var[gs[2 * k]] = consts["Direction"][gs[2 * k + 1]]
+            if len(var) != 4:
+                raise Unsupported(f"{fname}.rs: ray variables")
+            union = gs[8:12]
+            if any(u not in var for u in union):
+                raise Unsupported(f"{fname}.rs: union of unknown variables")
+            expr = " ||| ".join(f"rayInit sq {var[u]}" for u in union)
+            oks = []
+            for k in range(4):
+                gv, sv, fn, cd = gs[12 + 4 * k: 16 + 4 * k]
+                if gv not in var or sv not in var or cd not in consts["Direction"]:
+                    raise Unsupported(f"{fname}.rs: block {k}")
+                fwd = "true" if fn == "bitscan_forward" else "false"
+                expr = f"cutTr ({expr}) sq {var[gv]} {var[sv]} {consts['Direction'][cd]} {fwd} bl"
+                oks.append(f"cutTrOK sq {var[gv]} {var[sv]} {fwd} bl")
+            g.available(lean, f"def {lean} (sq : Nat) (bl : BB) : BB :=\n  {expr}\ndef {lean}OK (sq : Nat) (bl : BB) : Bool :=\n  " + " && ".join(oks) + "\n")
+        except (Unsupported, OSError) as e:
+            g.unavailable(lean, "(sq : Nat) (bl : BB) : BB", "0", e)
     out.append("end RCE.Gen.Tr\n")
     return "\n".join(x for x in out if x), g.status
 
